@@ -1714,7 +1714,7 @@ def writer(node, model, noop):
 
 
 def c14_gen(rng):
-    if maybe(rng, 0.001):
+    if maybe(rng, 0.004):
         # nesting deeper than the interpreter's default recursion limit (a caller who decodes such a
         # graph has raised the limit): the diagnostics still follow the text at every depth
         return {'deep': rng.choice([1005, 1100]), 'model': rng.choice(['default', 'amr'])}
@@ -1758,7 +1758,18 @@ def c14_check(case):
     except Exception as e:  # noqa: BLE001
         return f'node_contexts raised {type(e).__name__}: {e}'
     if ctx != [x[1] for x in w]:
-        return f'node_contexts {ctx!r} != writer {[x[1] for x in w]!r}'
+        return f'node_contexts {ctx!r} != writer {[x[1] for x in w]!r}'[:3000]
+    if 'tree_node' in case:
+        # a deep chain: the per-triple diagnostics (each linear in the graph) on a sample of the triples
+        for (tr, c, pushed, inv) in w[:4] + w[len(w) // 2: len(w) // 2 + 4] + w[-8:]:
+            try:
+                if layout.get_pushed_variable(g, tr) != pushed:
+                    return f'get_pushed_variable{tr!r} = {layout.get_pushed_variable(g, tr)!r}, writer says {pushed!r}'
+                if tr[0] != tr[2] and layout.appears_inverted(g, tr) != inv:
+                    return f'appears_inverted{tr!r} = {layout.appears_inverted(g, tr)!r}, writer says {inv!r}'
+            except Exception as e:  # noqa: BLE001
+                return f'diagnostic raised {type(e).__name__}: {e}'
+        return None
     for (tr, c, pushed, inv) in w:
         try:
             if layout.get_pushed_variable(g, tr) != pushed:
